@@ -45,7 +45,7 @@ def budget(tier):
 
 def strategy(tier):
     # spam: 130 constructions of one class in a row; crowd: 140 further singleton classes live at once, most of them cleared one by one
-    op = st.tuples(st.sampled_from(["new", "new", "new", "clear"] * 6 + ["spam", "crowd"]), st.integers(0, 11), st.integers(0, len(ARGSETS) - 1))
+    op = st.tuples(st.sampled_from(["new", "new", "new", "clear"] * 6 + ["spam", "crowd", "twin", "twin"]), st.integers(0, 11), st.integers(0, len(ARGSETS) - 1))
     return st.builds(lambda ops: {"ops": [list(o) for o in ops]}, st.lists(op, max_size=60))
 
 
@@ -60,6 +60,14 @@ def enumerate_cases(tier, shard=0, nshards=1):
 
     n = sum(len(alpha) ** k for k in range(1, depth + 1))
     return gen(), f"all {n} histories of 1..{depth} operations (construct P/Q(P)/R with 2 argument selections; clear P/Q/R/all)"
+
+
+def _define_twin(S):
+    def init(self, *a, **k):
+        self.args = (a, k)
+
+    # created with exactly the module and qualified name the class statement `class P` inside check_case produces
+    return S.TrueSingleton("P", (), {"__init__": init, "__module__": __name__, "__qualname__": "check_case.<locals>.P"})
 
 
 def _crowd(S, where):
@@ -197,6 +205,24 @@ def check_case(case):
             if op == "crowd":
                 _crowd(S, where)
                 classes.add("140-classes-live-at-once")
+                continue
+            if op == "twin":
+                # ANOTHER singleton class with the same module and qualified name as P is DEFINED (a class statement in a
+                # factory executed again) and used on its own: a class statement names no existing class, so nothing
+                # may change for P and the others; the twin is cleared again (targeted) afterwards
+                Twin = _define_twin(S)
+                t = Twin("twin", ci)
+                require(type(t) is Twin and t.args == (("twin", ci), {}), "wrong-class-returned", f"{where}: the newly defined class returned {type(t).__name__}")
+                del t
+                S.clear_true_singleton(Twin)
+                del Twin
+                classes.add("same-named-class-defined-meanwhile")
+                for c, (serial, args) in model.items():
+                    n0 = ninit[0]
+                    o = c()
+                    ok = getattr(o, "serial", None) == serial and ninit[0] == n0 and type(o) is c
+                    del o
+                    require(ok, "other-class-instance-lost", f"{where}: defining (and using) another class called P replaced or re-initialised the live instance of {c.__name__}")
                 continue
             if op == "new":
                 c = CL[sel(ci)]
